@@ -360,6 +360,8 @@ def _sqrt_side(a, b):
         fb = as_fraction(b)
         if fb is not None and fb >= 0:
             return ctx().sqrt_args[str(a)], z3.RealVal(str(fb * fb))
+        if fb is None and is_sym(b) and known_pos(b):
+            return ctx().sqrt_args[str(a)], b * b
     return None
 
 
